@@ -21,6 +21,8 @@ def shapes(T, x, s1, s2):
         ("!(S|x)&S", T.op("And", T.op("Not", T.op("Or", s1, x)), s2)), ("F&x", T.op("And", T.leaf("-false"), x)), ("T|x", T.op("Or", T.leaf("-true"), x)),
         ("S&(T|x)", T.op("And", s1, T.op("Or", T.leaf("-true"), x))), ("!(F&x)", T.op("Not", T.op("And", T.leaf("-false"), x))),
         ("S|(S&!x)", T.op("Or", s1, T.op("And", s2, T.op("Not", x)))),
+        # explicit grouping nodes (hand-built trees; the parser leaves none): transparent for the rule
+        ("(x)", T.op("Precedence", x)), ("S&(x)", T.op("And", s1, T.op("Precedence", x))), ("!((x)|S)", T.op("Not", T.op("Or", T.op("Precedence", x), s1))),
     ]
 
 
@@ -127,7 +129,11 @@ def run(ctx, rep, tier):
         samples.append(dict(shape=sname, vocabulary=len(vocab), outcomes=len(r.alts), programs_read_back=n_prog, seconds=round(time.time() - t0, 2)))
     n_pay = payload_level(B, rep, tier, samples)
     n_fmt = format_level(B, rep, tier, samples)
+    n_opt = option_level(B, rep, T, samples)
     cov = B.coverage_common()
+    cov["option_level"] = dict(obligations=n_opt, explanation="option nodes placed in the tree itself (every GlobalOption variant with a symbolic "
+                               "number, the positional option), alone and under every operator next to a supported test: the target expresses options only "
+                               "through RunOptions, so compile must return Err naming the option, never panic or succeed")
     cov["payload_level"] = dict(obligations=n_pay, explanation="every unsupported test / action that carries a string, compiled with a payload of "
                                 "k arbitrary code points (quick k = 3, 6; thorough k = 1..8): z3 decides that no payload value makes compilation succeed")
     cov["format_level"] = dict(obligations=n_fmt, explanation="compile executed on -printf / -fprintf actions whose format is a list of 1..3 "
@@ -141,6 +147,50 @@ def run(ctx, rep, tier):
                outside="two or more unsupported constructs in one tree (first one wins; not asserted which)",
                evaluations=len(rep.queries), distinct_nontrivial=len(rep.queries))
     rep.coverage = cov
+
+
+def option_level(B, rep, T, samples):
+    """option nodes in the tree (hand-built trees: the parser replaces them by -true): refused with an error naming the option"""
+    P = B.engine("dev").P
+    n_ob = 0
+    sib = T.leaf("-name foo")
+    nodes = []
+    for v in P.enum_variants.get("GlobalOption", []):
+        nf = len(P.variant_field_types.get(("GlobalOption", v), []))
+        num = z3.BitVec("optnum_" + v, 32)
+        sx = {"Depth": "(global-depth)", "Threads": "(global-threads %d)", "MaxDepth": "(global-maxdepth %d)", "MinDepth": "(global-mindepth %d)"}.get(v)
+        nodes.append((v, Adt("Expression", "Global", [Adt("GlobalOption", v, [num] * nf)]), sx, num if nf else None))
+    for v in P.enum_variants.get("PositionalOption", []):
+        nodes.append((v, Adt("Expression", "Positional", [Adt("PositionalOption", v)]), "(positional)" if v == "XDev" else None, None))
+    for v, node, sx, num in nodes:
+        for wname, wrap in (("alone", lambda x: x), ("and", lambda x: T.op("And", sib, x)), ("or", lambda x: T.op("Or", x, sib)),
+                            ("list", lambda x: T.op("List", sib, x)), ("not", lambda x: T.op("Not", x)), ("prec", lambda x: T.op("Precedence", x))):
+            tree, tsx = wrap((node, sx or "(?)"))
+            r = compile_tree(B, tree)
+            panic_g = b_or(*[g for g, x in r.alts if isinstance(x, Panic)])
+            ok_g = r.guard(is_ok)
+            named = True
+            for g, x in r.alts:
+                if not isinstance(x, Panic) and is_err(x):
+                    for g2, e in flatten_value(x.fields[0]):
+                        msg = text_of(r.I.fmt_display(r.I, e, St()))
+                        if v not in msg:
+                            named = b_and(named, b_not(b_and(g, g2)))
+            for cname, bad in (("no-panic", panic_g), ("refused", ok_g), ("error-names-option", b_not(named))):
+                res, m = B.solve("option:%s:%s:%s" % (v, wname, cname), list(r.assume), bad)
+                n_ob += 1
+                if res == z3.sat:
+                    k = m.eval(num, model_completion=True).as_long() if num is not None else 0
+                    csx = tsx % k if "%d" in tsx else tsx
+                    d = B.ctx.run_native_trees([csx])[0] if sx else {}
+                    if sx and d.get("compile") == "err" and v in (d.get("cerr") or ""):
+                        rep.inconclusive.append("option-level counterexample %s does not reproduce natively" % csx)
+                        continue
+                    rep.violation("unsupported:option-node:" + cname, "%s: compile gives %s %r for a tree that contains the option node %s; expected an error naming it" % (
+                        csx, d.get("compile"), d.get("cerr") or d.get("panic") or "", v), dict(sexpr=csx, native=d, claim=cname))
+                    break
+    samples.append(dict(shape="option nodes", nodes=[n[0] for n in nodes], wrappers=["alone", "and", "or", "list", "not", "prec"]))
+    return n_ob
 
 
 UNSUPPORTED_WITH_STRING = [("Test", v) for v in ("AccessNewer", "ChangeNewer", "ModifyNewer", "FsType", "Group", "InsensitiveLinkName", "InsensitiveRegex",
